@@ -3,7 +3,9 @@ from pv import obs_effects as E
 
 
 KEYS = ['parso.python.parser.Parser._recovery_tokenize', 'parso.python.parser.Parser.__init__',
-        'parso.parser.BaseParser.__init__']
+        'parso.parser.BaseParser.__init__', 'parso.parser.BaseParser.error_recovery', 'parso.python.parser.Parser.error_recovery#strict',
+        'parso.parser.BaseParser._add_token',
+        'parso.parser.ParserSyntaxError.__init__']
 
 
 def run(report):
